@@ -156,8 +156,8 @@ func main() {
 				if j < len(m) {
 					mo = m[j]
 				}
-				if mo == "skip" {
-					continue // the model has no opinion on this line (oracle-only)
+				if mo == "skip" || (j < len(impl) && impl[j] == "skip") {
+					continue // the model has no opinion on this line (oracle-only), or the engine withdrew it from the comparison
 				}
 				if j >= len(impl) || impl[j] != mo {
 					io := "<no output>"
